@@ -4,4 +4,4 @@ cd /verif
 P=$1; shift
 IDS="$@"; [ -z "$IDS" ] && IDS=$(ls seeded)
 : > .scratch/regress-summary.log
-printf "%s\n" $IDS | xargs -P "$P" -I{} sh -c 'extra=""; case {} in C04e|C04g) extra="C04 C03";; C04f) extra="C04 C06";; C05h) extra="C05 C04 C06";; C12h) extra="C10";; C13g) extra="C13 C11";; C15g) extra="C07";; esac; timeout 2400 /venv/bin/python tools/seeded.py check seeded/{} $extra > .scratch/regress-{}.log 2>&1; tail -1 .scratch/regress-{}.log >> .scratch/regress-summary.log'
+printf "%s\n" $IDS | xargs -P "$P" -I{} sh -c 'extra=""; case {} in C04e|C04g) extra="C04 C03";; C04f) extra="C04 C06";; C05h) extra="C05 C04 C06";; C12h) extra="C10";; C13g) extra="C13 C11";; C15g) extra="C07";; C02i) extra="C11";; C02j) extra="C01";; C05j) extra="C06";; C12i) extra="C03";; esac; timeout 2400 /venv/bin/python tools/seeded.py check seeded/{} $extra > .scratch/regress-{}.log 2>&1; tail -1 .scratch/regress-{}.log >> .scratch/regress-summary.log'
